@@ -2652,17 +2652,17 @@ func (dsc *dataStoreCommand) setOperationCount(
 func (dsc *dataStoreCommand) diffWorker(firstKey string, keyNames ...string) (d *redisDict, wrongType bool) {
 	sk, objExists := dsc.getKeyObjectUnlocked(firstKey)
 	if !objExists {
+		// a missing key is an empty set; the remaining keys are still type checked below
 		d = newRedisDict()
-		return
-	}
+	} else {
+		m := sk.getSet()
+		if m == nil {
+			wrongType = true
+			return
+		}
 
-	m := sk.getSet()
-	if m == nil {
-		wrongType = true
-		return
+		d = m.clone()
 	}
-
-	d = m.clone()
 
 	for _, keyName := range keyNames {
 		sk2, objExists := dsc.getKeyObjectUnlocked(keyName)
@@ -2692,16 +2692,15 @@ func (dsc *dataStoreCommand) diffSetStore(destination, keyName string, withKeyNa
 }
 
 func (dsc *dataStoreCommand) intersectWorker(firstKey string, keyNames ...string) (d *redisDict, wrongType bool) {
+	// a missing key is an empty set; every key is type checked before the result is decided
+	m := newRedisDict()
 	sk, objExists := dsc.getKeyObjectUnlocked(firstKey)
-	if !objExists {
-		d = newRedisDict()
-		return
-	}
-
-	m := sk.getSet()
-	if m == nil {
-		wrongType = true
-		return
+	if objExists {
+		m = sk.getSet()
+		if m == nil {
+			wrongType = true
+			return
+		}
 	}
 
 	d = m.clone()
@@ -2709,8 +2708,9 @@ func (dsc *dataStoreCommand) intersectWorker(firstKey string, keyNames ...string
 	for _, keyName := range keyNames {
 		sk2, objExists := dsc.getKeyObjectUnlocked(keyName)
 		if !objExists {
+			m = newRedisDict()
 			d = newRedisDict()
-			return
+			continue
 		}
 		m2 := sk2.getSet()
 		if m2 == nil {
